@@ -25,6 +25,7 @@ if TYPE_CHECKING:
 
 # from .generator import msg_as_string, msg_headers_as_string
 from .generator import msg_as_bytes, msg_headers_as_bytes
+from .utils import quoted
 
 logger = logging.getLogger("asimap.fetch")
 
@@ -76,6 +77,9 @@ def encode_header(hdr: str) -> bytes:
             result = Header(hdr).encode(maxlinelen=0).encode("latin-1")
         except UnicodeEncodeError:
             result = hdr.encode("latin-1", errors="replace")
+    # Inside a quoted string `\\` and `"` have to be escaped.
+    #
+    result = result.replace(b"\\", b"\\\\").replace(b'"', b'\\"')
     return b'"' + result + b'"'
 
 
@@ -571,12 +575,12 @@ class FetchAtt:
         for value in values:
             if "," in value:
                 for lng in value.split(","):
-                    langs.add(f'"{lng.strip()}"')
+                    langs.add(quoted(lng.strip()))
             elif ";" in value:
                 for lng in value.split(";"):
-                    langs.add(f'"{lng.strip()}"')
+                    langs.add(quoted(lng.strip()))
             else:
-                langs.add(f'"{value.strip()}"')
+                langs.add(quoted(value.strip()))
 
         if not langs:
             return b"NIL"
@@ -635,7 +639,7 @@ class FetchAtt:
 
         results = []
         for k, v in params.items():
-            results.append(f'"{k.upper()}" "{v}"')
+            results.append(f"{quoted(k.upper())} {quoted(v)}")
 
         try:
             res = (f"({' '.join(results)})").encode("latin-1")
@@ -683,7 +687,7 @@ class FetchAtt:
 
         result = []
         for param, value in params.items():
-            result.append(f'"{param.upper()}" "{value}"')
+            result.append(f"{quoted(param.upper())} {quoted(value)}")
         res = f'("{cd.upper()}" ({" ".join(result)}))'
         try:
             return res.encode("latin-1")
@@ -809,8 +813,8 @@ class FetchAtt:
         #
         maintype = msg.get_content_maintype()
         msg_subtype = msg.get_content_subtype()
-        result.append((f'"{maintype.upper()}"').encode("latin-1"))
-        result.append((f'"{msg_subtype.upper()}"').encode("latin-1"))
+        result.append(quoted(maintype.upper()).encode("latin-1"))
+        result.append(quoted(msg_subtype.upper()).encode("latin-1"))
 
         result.append(self.body_parameters(msg))  # type: ignore[arg-type]
 
@@ -822,7 +826,7 @@ class FetchAtt:
             if "Content-Transfer-Encoding" in msg
             else "7BIT"
         )
-        result.append((f'"{cte}"').encode("latin-1"))
+        result.append(quoted(cte).encode("latin-1"))
 
         # Body size
         payload = msg_as_bytes(msg, render_headers=False)
